@@ -13,7 +13,8 @@
 // Oracles: no panic; accepted => EncodeToBytes(decoded) == input; accept/reject
 // agrees with refrlp; a decoded value is consumed completely and nothing past the
 // declared input is read; Split / CountValues / Stream walk agree with refrlp;
-// allocation for tiny inputs declaring huge sizes stays small.
+// allocation for tiny inputs declaring huge sizes stays small; a Stream with an
+// input limit never consumes or returns anything beyond the limit (limit.go).
 package main
 
 import (
@@ -190,13 +191,16 @@ func errSlug(err error) string {
 // ------------------------------------------------------------------ helpers
 
 type kase struct {
-	Part  string `json:"part"` // decode | bytes | alloc | value
+	Part  string `json:"part"` // decode | bytes | alloc | value | limit
 	Type  string `json:"type,omitempty"`
 	In    string `json:"in,omitempty"` // packed bytes (hex with xx*N runs)
 	Deep  bool   `json:"deep,omitempty"`
 	Group string `json:"group,omitempty"`
 	Idx   int    `json:"idx,omitempty"`
 	Tho   bool   `json:"thorough,omitempty"` // tier whose value alphabet Idx refers to
+	Seq   []int  `json:"seq,omitempty"`      // limit family: indices into limAlphabet
+	Limit int    `json:"limit,omitempty"`
+	Mode  int    `json:"mode,omitempty"`
 }
 
 type finding struct{ sig, part, msg string }
@@ -811,6 +815,8 @@ func execCase(k kase) []finding {
 		return checkBytes(unpackBytes(k.In))
 	case "alloc":
 		return checkAlloc(targetByName[k.Type], unpackBytes(k.In))
+	case "limit":
+		return checkLimit(k.Seq, k.Limit, k.Mode)
 	case "value":
 		for _, g := range valueGroups(k.Tho) {
 			if g.name == k.Group {
@@ -969,6 +975,35 @@ func run(c *fw.Ctx) {
 	c.Count("field_substitution_inputs", nf)
 	phase("fields")
 
+	// (ii-c) limited multi-value streams: every sequence of 2..3 alphabet values x every limit
+	// position x every read mode
+	nl := int64(0)
+	forEachLimitSeq(func(seq []int) bool {
+		if !r.mine() {
+			return true
+		}
+		total := limitSeqLen(seq)
+		for limit := 1; limit <= total; limit++ {
+			for mode := range limModes {
+				r.evals++
+				r.nontriv++
+				nl++
+				if fs := checkLimit(seq, limit, mode); len(fs) > 0 {
+					seq, limit, mode := append([]int{}, seq...), limit, mode
+					r.report(kase{Part: "limit", Seq: seq, Limit: limit, Mode: mode}, fs, func() []finding { return checkLimit(seq, limit, mode) })
+				}
+			}
+		}
+		return !r.expired()
+	})
+	if r.capped {
+		c.Cap("time budget during the limited multi-value streams")
+		return
+	}
+	c.Count("limited_stream_cases", nl)
+	c.Sample(kase{Part: "limit", Seq: []int{6, 2}, Limit: 4, Mode: 0})
+	phase("limit")
+
 	// (iii) value round trips
 	nvals := int64(0)
 	for _, g := range valueGroups(c.Thorough()) {
@@ -1101,7 +1136,8 @@ func main() {
 			"(quick: first byte in {00,7f,80,81,82,83,b7,b8,b9,bf,c0,c1,c2,c3,f7,f8,f9,ff} x all 65536 tails; thorough: all 2^24, plus all length-4 strings 0xC3****** against the list-kind targets), the header grammar " +
 			"(kind x every header form x 14 declared sizes up to 2^64-1 x payload lengths {n,n-1,n+1,0,1,2} x fillers x 8 nesting wrappers) and all single and double " +
 			"field substitutions (45 canonical/non-canonical field encodings) in the struct encodings of account.Account, eth_tx.Transaction and the tagged test structs, " +
-			"each against the target types, plus encode->decode round trips over per-type value alphabets. " +
+			"each against the target types, plus limited multi-value Streams (every sequence of 2..3 values from a 9-value alphabet x every input-limit position x 4 read modes " +
+			"over a reader holding more than the limit) and encode->decode round trips over per-type value alphabets. " +
 			"Non-trivial = the input is well-formed canonical RLP (so the outcome depends on the target type) or the decoder accepted it, or a value round trip.",
 		Assumptions: []string{
 			"verif/h/refrlp (strict reference decoder/encoder written from the property statement) is correct",
